@@ -8,6 +8,7 @@
 (*  "grow"    a writer that owns a growing buffer: append, zero fill on forward seek, truncation     *)
 (*  "copy"    the chunked Reader -> Writer copy loop, over the reader contract of StreamReader       *)
 (*  "open"    FileWriter's open-flag matrix over a file system with one path                         *)
+(*  "file"    a FileWriter on a new file: position independent of length, overwrite, gaps zero-filled  *)
 (***************************************************************************************************)
 EXTENDS Naturals, Sequences, FiniteSets, TLC, Json
 
@@ -67,14 +68,31 @@ GSeek(p) == IF ~IsSmall(p) THEN FStep("Seek", p, "err", pos, cells, stamp)
 GrowNext == \E a \in Arg : GWrite(a) \/ GSeekForward(a) \/ GSeekBackward(a) \/ GSeek(a)
 
 ---------------------------------------------------------------------------------------------------
+(* "file": a FileWriter on a new file.  The position is independent of the length: seeking changes nothing in the file, a write lands  *)
+(* at the position, overwrites what is there and zero-fills a gap it leaves behind; nothing is ever truncated.  Seeks to positions no   *)
+(* file can have (the HUGE class) are outside the model: the property says nothing about them.                                          *)
+XPad(c, p) == IF p > Len(c) THEN c \o [i \in 1..(p - Len(c)) |-> 0] ELSE c
+XWrite(k) == /\ stamp <= 3 /\ IsSmall(k) /\ pos + k <= N
+             /\ LET base == IF k = 0 THEN cells ELSE XPad(cells, pos)
+                    n2 == IF Len(base) > pos + k THEN Len(base) ELSE IF k = 0 THEN Len(base) ELSE pos + k
+                IN FStep("Write", k, "ok", pos + k, [i \in 1..n2 |-> IF i > pos /\ i <= pos + k THEN stamp ELSE base[i]], stamp + 1)
+XSeek(p) == IsSmall(p) /\ p <= N /\ FStep("Seek", p, "ok", p, cells, stamp)
+WrapDistance(a) == a - NSmall - 4 + 1              \* the argument 2^64 - d of the WRAP class
+XSeekForward(d) == IF IsSmall(d) THEN pos + d <= N /\ FStep("SeekForward", d, "ok", pos + d, cells, stamp)
+                   ELSE ArgClass(d) = "wrap" /\ WrapDistance(d) <= pos /\ FStep("SeekForward", d, "err", pos, cells, stamp)     \* position + offset wraps: refused
+XSeekBackward(d) == IF Gt(d, pos) THEN FStep("SeekBackward", d, "err", pos, cells, stamp)
+                    ELSE FStep("SeekBackward", d, "ok", pos - d, cells, stamp)
+FileNext == \E a \in Arg : XWrite(a) \/ XSeek(a) \/ XSeekForward(a) \/ XSeekBackward(a)
+
+---------------------------------------------------------------------------------------------------
 Init == IF Machine = "fixed" THEN FixedInit ELSE GrowInit
-Next == IF Machine = "fixed" THEN FixedNext ELSE GrowNext
+Next == IF Machine = "fixed" THEN FixedNext ELSE IF Machine = "file" THEN FileNext ELSE GrowNext
 Spec == Init /\ [][Next]_vars
 
-PosInBounds == IF Machine = "fixed" THEN pos \in 0..N /\ Len(cells) = N ELSE pos = Len(cells)
+PosInBounds == IF Machine = "fixed" THEN pos \in 0..N /\ Len(cells) = N ELSE IF Machine = "file" THEN pos \in 0..N /\ Len(cells) <= N ELSE pos = Len(cells)
 \* a failed step changes nothing; a write touches exactly the cells it covers
 FrameCondition == [][ \/ pos' = pos /\ cells' = cells /\ stamp' = stamp
-                      \/ /\ stamp' = stamp /\ (Machine = "fixed" => cells' = cells)
+                      \/ /\ stamp' = stamp /\ (Machine \in {"fixed", "file"} => cells' = cells)
                       \/ /\ stamp' = stamp + 1
                          /\ \A i \in 1..Len(cells) : (i <= pos \/ i > pos' ) /\ i <= Len(cells') => cells'[i] = cells[i] ]_vars
 ===================================================================================================
